@@ -193,6 +193,11 @@ func c10Intruder(t *rapid.T) C10Triple {
 		`BEGIN { b = true; b.k++; z = null; z.k = 1 }`,
 		`BEGIN { r = /a/; r.x = 2; r[0]++ }`,
 		`{ $.name[10] = 9; $.name[12]++ }`,
+		// values that are == but print differently (0 and -0, 1 and "1"): the text of one must not
+		// depend on whether the other was printed earlier in the process
+		`BEGIN { z = 0 * -1; print z, [z], {k: z}, "" + z; printf("%v %f\n", z, z) }`,
+		`BEGIN { z = 0; print z, [z], {k: z}, "" + z, 1 - 1; printf("%v %f\n", z, z) }`,
+		`{ print -$.a * 0, $.a * 0, [0, -0, 0.0] }`,
 		// sorting decides between numeric and textual order per call, not per process
 		`BEGIN { print ["b", 10, "9", 1].sort(), [true, "x", 2].sort() }`,
 		`BEGIN { print [10, 9, 100, 1].sort(), [20, 3, 2.5].sort(); print ["b", 10].sort(); print [10, 9, 100, 1].sort() }`,
